@@ -32,9 +32,10 @@ impl Obj {
   #[verifier::external_body] pub fn to_fiber(self) -> Unwrapped requires o_kind(self) == OK::Fiber { Unwrapped { } }
   #[verifier::external_body] pub fn to_box(self) -> Unwrapped requires o_kind(self) == OK::LyBox { Unwrapped { } }
 }
-/// ParameterKind and ParameterKind::is_valid (laythe_core/src/signature.rs)
+/// ParameterKind and ParameterKind::is_valid (laythe_core/src/signature.rs): the same table, by variant name, that the sigkind unit proves of the
+/// real is_valid (`kind_admits`)
 #[derive(Clone, Copy, PartialEq, Eq, Structural)]
-pub enum PK { Object, Bool, Number, String, Callable }
+pub enum PK { Object, Bool, Number, String, Callable, Enumerator }
 pub open spec fn kind_valid(k: PK, v: Value) -> bool {
   match k {
     PK::Object => true,
@@ -42,6 +43,7 @@ pub open spec fn kind_valid(k: PK, v: Value) -> bool {
     PK::Number => v_is_num(v),
     PK::String => v_is_obj(v) && o_kind(v_obj(v)) == OK::String,
     PK::Callable => v_is_obj(v) && (o_kind(v_obj(v)) == OK::Closure || o_kind(v_obj(v)) == OK::Fun || o_kind(v_obj(v)) == OK::Native || o_kind(v_obj(v)) == OK::Method),
+    PK::Enumerator => v_is_obj(v) && o_kind(v_obj(v)) == OK::Enumerator,
   }
 }
 #[derive(Clone, Copy, PartialEq, Eq, Structural)]
